@@ -35,6 +35,9 @@ type ChaosCfg struct {
 	// NoUnstake: no node / application begin-unstake transactions (histories whose exported state can be imported)
 	NoUnstake  bool
 	Delegators bool // genesis nodes carry reward delegators whose accounts do not exist yet
+	// SlashPpm: downtime slash fraction in parts per million (0 = the 1% default): with the stakes used here a few ppm
+	// burn less than one whole POKT, so the first burn of a round stake crosses a consensus-power boundary
+	SlashPpm int64
 }
 
 type Chaos struct {
@@ -63,6 +66,7 @@ func NewChaos(r *rand.Rand, cfg ChaosCfg) *Chaos {
 	InitCodec()
 	g := DefaultGen(cfg.Nodes, cfg.Apps, cfg.Accts)
 	g.MinSignedPerWindowPct = 80
+	g.SlashDowntimePpm = cfg.SlashPpm
 	c := &Chaos{R: r, Cfg: cfg, outputOf: map[int]int{}, victim: -1}
 	for i := 0; i < cfg.Nodes; i++ {
 		c.nodeKeys = append(c.nodeKeys, KeyNode0+i)
